@@ -3,6 +3,7 @@ package main
 import (
 	"fmt"
 	"go/ast"
+	"go/token"
 	"path/filepath"
 	"strings"
 )
@@ -41,8 +42,9 @@ type wrapAST struct {
 	ShapeErr string
 }
 
-// docForms extracts the rows following the "Forms:" line of a doc comment:
-// the tab-indented lines; blanks are collapsed to single spaces.
+// docForms extracts the rows following the "Forms:" line of a doc comment: the indented lines (a tab, or two or
+// more blanks) up to the first non-indented text; blanks are collapsed to single spaces.  The header is recognised
+// case-insensitively, with or without the colon.
 func docForms(cg *ast.CommentGroup) []string {
 	if cg == nil {
 		return nil
@@ -51,7 +53,7 @@ func docForms(cg *ast.CommentGroup) []string {
 	in := false
 	for _, c := range cg.List {
 		t := strings.TrimPrefix(c.Text, "//")
-		if strings.TrimSpace(t) == "Forms:" {
+		if h := strings.ToLower(strings.TrimSuffix(strings.TrimSpace(t), ":")); !in && (h == "forms" || h == "instruction forms") {
 			in = true
 			continue
 		}
@@ -61,7 +63,7 @@ func docForms(cg *ast.CommentGroup) []string {
 		if strings.TrimSpace(t) == "" {
 			continue
 		}
-		if strings.HasPrefix(t, "\t") {
+		if strings.HasPrefix(t, "\t") || strings.HasPrefix(t, "  ") || strings.HasPrefix(t, " \t") {
 			rows = append(rows, strings.Join(strings.Fields(t), " "))
 			continue
 		}
@@ -110,10 +112,132 @@ func identList(es []ast.Expr) ([]string, bool) {
 	return out, true
 }
 
+// straightLine splits a body of the shape `x := e; y := e'; …; <last>` into the single-assignment locals and the
+// last statement.  ok=false for any other shape (a local assigned twice, a non-definition, control flow).
+func straightLine(body *ast.BlockStmt) (locals map[string]ast.Expr, pairs map[string][2]string, pairCall map[string]ast.Expr, last ast.Stmt, ok bool) {
+	locals, pairs, pairCall = map[string]ast.Expr{}, map[string][2]string{}, map[string]ast.Expr{}
+	if body == nil || len(body.List) == 0 {
+		return nil, nil, nil, nil, false
+	}
+	for _, st := range body.List[:len(body.List)-1] {
+		as, isAs := st.(*ast.AssignStmt)
+		if !isAs || as.Tok != token.DEFINE || len(as.Rhs) != 1 {
+			return nil, nil, nil, nil, false
+		}
+		var names []string
+		for _, l := range as.Lhs {
+			id, isId := l.(*ast.Ident)
+			if !isId {
+				return nil, nil, nil, nil, false
+			}
+			if _, dup := locals[id.Name]; dup {
+				return nil, nil, nil, nil, false
+			}
+			if _, dup := pairs[id.Name]; dup {
+				return nil, nil, nil, nil, false
+			}
+			names = append(names, id.Name)
+		}
+		switch len(names) {
+		case 1:
+			locals[names[0]] = as.Rhs[0]
+		case 2:
+			// `i, err := call(...)`: remembered under the first name
+			pairs[names[0]] = [2]string{names[0], names[1]}
+			pairCall[names[0]] = as.Rhs[0]
+		default:
+			return nil, nil, nil, nil, false
+		}
+	}
+	return locals, pairs, pairCall, body.List[len(body.List)-1], true
+}
+
+// substLocal replaces an identifier that names a single-assignment local by the expression assigned to it.
+func substLocal(e ast.Expr, locals map[string]ast.Expr) ast.Expr {
+	for k := 0; k < 8; k++ {
+		id, ok := e.(*ast.Ident)
+		if !ok {
+			return e
+		}
+		v, ok := locals[id.Name]
+		if !ok {
+			return e
+		}
+		e = v
+	}
+	return e
+}
+
+// x86Names finds, in the hand-written and generated sources of package x86, the names the constructor bodies use:
+// the builder function (3 parameters, results (*ir.Instruction, error)), the type of its suffix parameter, and the
+// method of the opcode type that returns the form list.  A rename of any of them (with its uses) is harmless; the
+// translator reports the CANONICAL names build / sffxs / Forms for whatever the tree calls them.
+type x86NameSet struct{ build, sffxs, forms string }
+
+func x86Names(repo string) x86NameSet {
+	ns := x86NameSet{"build", "sffxs", "Forms"}
+	if _, hf, err := parseFile(filepath.Join(repo, "x86", "optab.go")); err == nil {
+		for _, d := range hf.Decls {
+			fd, ok := d.(*ast.FuncDecl)
+			if !ok || fd.Recv != nil || fd.Type.Params == nil || fd.Type.Results == nil {
+				continue
+			}
+			np := 0
+			var second ast.Expr
+			for _, fld := range fd.Type.Params.List {
+				k := len(fld.Names)
+				if k == 0 {
+					k = 1
+				}
+				if np < 2 && np+k >= 2 {
+					second = fld.Type
+				}
+				np += k
+			}
+			if np != 3 || len(fd.Type.Results.List) != 2 {
+				continue
+			}
+			if e, ok := fd.Type.Results.List[1].Type.(*ast.Ident); !ok || e.Name != "error" {
+				continue
+			}
+			ns.build = fd.Name.Name
+			if id, ok := second.(*ast.Ident); ok {
+				ns.sffxs = id.Name
+			}
+		}
+	}
+	if _, zf, err := parseFile(filepath.Join(repo, "x86", "zoptab.go")); err == nil {
+		for _, d := range zf.Decls {
+			fd, ok := d.(*ast.FuncDecl)
+			if !ok || fd.Recv == nil || fd.Type.Results == nil || len(fd.Type.Results.List) != 1 {
+				continue
+			}
+			at, ok := fd.Type.Results.List[0].Type.(*ast.ArrayType)
+			if !ok || at.Len != nil {
+				continue
+			}
+			if el, ok := at.Elt.(*ast.Ident); ok && el.Name == "form" {
+				ns.forms = fd.Name.Name
+			}
+		}
+	}
+	return ns
+}
+
 func parseCtors(repo string) ([]ctorAST, error) {
 	_, f, err := parseFile(filepath.Join(repo, "x86", "zctors.go"))
 	if err != nil {
 		return nil, err
+	}
+	ns := x86Names(repo)
+	canon := func(name, actual, canonical string) string {
+		if name == actual {
+			return canonical
+		}
+		if name == canonical {
+			return name + "?" // the canonical name is taken by something else
+		}
+		return name
 	}
 	var out []ctorAST
 	for _, d := range f.Decls {
@@ -130,16 +254,26 @@ func parseCtors(repo string) ([]ctorAST, error) {
 			continue
 		}
 		// results: (*intrep.Instruction, error) — the type checker enforces what build returns
-		if fd.Body == nil || len(fd.Body.List) != 1 {
-			bad("body is not a single statement")
+		locals, pairs, _, lastSt, okBody := straightLine(fd.Body)
+		if !okBody || len(pairs) != 0 {
+			bad("body is not single-assignment locals followed by a return")
 			continue
 		}
-		rs, ok := fd.Body.List[0].(*ast.ReturnStmt)
+		for _, p := range c.Params {
+			if _, shadow := locals[p]; shadow {
+				okBody = false
+			}
+		}
+		if !okBody {
+			bad("a local shadows a parameter")
+			continue
+		}
+		rs, ok := lastSt.(*ast.ReturnStmt)
 		if !ok || len(rs.Results) != 1 {
-			bad("body is not a single return")
+			bad("body does not end in a single-value return")
 			continue
 		}
-		call, ok := rs.Results[0].(*ast.CallExpr)
+		call, ok := substLocal(rs.Results[0], locals).(*ast.CallExpr)
 		if !ok || len(call.Args) != 3 || call.Ellipsis.IsValid() {
 			bad("return value is not a 3-argument call")
 			continue
@@ -149,9 +283,9 @@ func parseCtors(repo string) ([]ctorAST, error) {
 			bad("callee is not an identifier")
 			continue
 		}
-		c.Callee = fn.Name
+		c.Callee = canon(fn.Name, ns.build, "build")
 		// arg 0: X.Forms()
-		a0, ok := call.Args[0].(*ast.CallExpr)
+		a0, ok := substLocal(call.Args[0], locals).(*ast.CallExpr)
 		if !ok || len(a0.Args) != 0 {
 			bad("first argument is not X.Forms()")
 			continue
@@ -161,20 +295,20 @@ func parseCtors(repo string) ([]ctorAST, error) {
 			bad("first argument is not X.Forms()")
 			continue
 		}
-		x, ok := sel.X.(*ast.Ident)
+		x, ok := substLocal(sel.X, locals).(*ast.Ident)
 		if !ok {
 			bad("first argument receiver is not an identifier")
 			continue
 		}
-		c.OpcConst, c.FormsSel = x.Name, sel.Sel.Name
+		c.OpcConst, c.FormsSel = x.Name, canon(sel.Sel.Name, ns.forms, "Forms")
 		// arg 1: sffxs{...}
-		a1, ok := call.Args[1].(*ast.CompositeLit)
+		a1, ok := substLocal(call.Args[1], locals).(*ast.CompositeLit)
 		if !ok {
 			bad("second argument is not a composite literal")
 			continue
 		}
 		if t, ok := a1.Type.(*ast.Ident); ok {
-			c.SfxType = t.Name
+			c.SfxType = canon(t.Name, ns.sffxs, "sffxs")
 		} else {
 			bad("suffix literal type")
 			continue
@@ -184,7 +318,7 @@ func parseCtors(repo string) ([]ctorAST, error) {
 			continue
 		}
 		// arg 2: []operand.Op{a, b} or ident
-		switch a2 := call.Args[2].(type) {
+		switch a2 := substLocal(call.Args[2], locals).(type) {
 		case *ast.Ident:
 			c.Args, c.ArgsIsSlice = []string{a2.Name}, true
 		case *ast.CompositeLit:
@@ -213,12 +347,74 @@ func parseWrappers(repo string) (methods, globals []wrapAST, err error) {
 	if err != nil {
 		return nil, nil, err
 	}
+	// names the bodies use, whatever the tree calls them: the helper method taking (instruction, error) and the
+	// package-level *Context variable (`var ctx = NewContext()` in package build); reported canonically as
+	// addinstruction / ctx, the method receiver as c
+	helper := "addinstruction"
+	for _, d := range f.Decls {
+		fd, ok := d.(*ast.FuncDecl)
+		if !ok || fd.Recv == nil || fd.Type.Params == nil || fd.Name.IsExported() {
+			continue
+		}
+		np := 0
+		var lastT ast.Expr
+		for _, fld := range fd.Type.Params.List {
+			k := len(fld.Names)
+			if k == 0 {
+				k = 1
+			}
+			np += k
+			lastT = fld.Type
+		}
+		if id, ok := lastT.(*ast.Ident); ok && np == 2 && id.Name == "error" {
+			helper = fd.Name.Name
+		}
+	}
+	global := "ctx"
+	if pkgs, derr := filepath.Glob(filepath.Join(repo, "build", "*.go")); derr == nil {
+		for _, path := range pkgs {
+			if strings.HasSuffix(path, "_test.go") {
+				continue
+			}
+			_, gf, perr := parseFile(path)
+			if perr != nil {
+				continue
+			}
+			for _, d := range gf.Decls {
+				gd, ok := d.(*ast.GenDecl)
+				if !ok || gd.Tok != token.VAR {
+					continue
+				}
+				for _, sp := range gd.Specs {
+					vs := sp.(*ast.ValueSpec)
+					for i, n := range vs.Names {
+						if i < len(vs.Values) {
+							if call, ok := vs.Values[i].(*ast.CallExpr); ok {
+								if id, ok := call.Fun.(*ast.Ident); ok && id.Name == "NewContext" && len(call.Args) == 0 {
+									global = n.Name
+								}
+							}
+						}
+					}
+				}
+			}
+		}
+	}
+	canon := func(name, actual, canonical string) string {
+		if name == actual {
+			return canonical
+		}
+		if name == canonical {
+			return name + "?"
+		}
+		return name
+	}
 	for _, d := range f.Decls {
 		fd, ok := d.(*ast.FuncDecl)
 		if !ok {
 			continue
 		}
-		if fd.Name.Name == "addinstruction" {
+		if fd.Name.Name == helper {
 			continue
 		}
 		w := wrapAST{Name: fd.Name.Name, Doc: docForms(fd.Doc)}
@@ -241,13 +437,27 @@ func parseWrappers(repo string) (methods, globals []wrapAST, err error) {
 			bad("has results")
 			continue
 		}
-		if fd.Body == nil || len(fd.Body.List) != 1 {
-			bad("body is not a single statement")
+		locals, pairs, pairCall, lastSt, okBody := straightLine(fd.Body)
+		if !okBody {
+			bad("body is not single-assignment locals followed by a call")
 			continue
 		}
-		es, ok := fd.Body.List[0].(*ast.ExprStmt)
+		shadow := false
+		for _, p := range w.Params {
+			if _, s1 := locals[p]; s1 {
+				shadow = true
+			}
+			if _, s2 := pairs[p]; s2 {
+				shadow = true
+			}
+		}
+		if shadow {
+			bad("a local shadows a parameter")
+			continue
+		}
+		es, ok := lastSt.(*ast.ExprStmt)
 		if !ok {
-			bad("body is not an expression statement")
+			bad("body does not end in an expression statement")
 			continue
 		}
 		call, ok := es.X.(*ast.CallExpr)
@@ -284,13 +494,30 @@ func parseWrappers(repo string) (methods, globals []wrapAST, err error) {
 				bad("call is not on the receiver")
 				continue
 			}
-			// c.addinstruction(x86.NAME(args))
-			w.Recv, w.Via = rx.Name, sel.Sel.Name
-			if len(call.Args) != 1 || call.Ellipsis.IsValid() {
+			// c.addinstruction(x86.NAME(args))   or   i, err := x86.NAME(args); c.addinstruction(i, err)
+			w.Recv, w.Via = "c", canon(sel.Sel.Name, helper, "addinstruction")
+			if call.Ellipsis.IsValid() {
 				bad("addinstruction argument count")
 				continue
 			}
-			inner, ok := call.Args[0].(*ast.CallExpr)
+			var innerE ast.Expr
+			switch len(call.Args) {
+			case 1:
+				innerE = substLocal(call.Args[0], locals)
+			case 2:
+				a, okA := call.Args[0].(*ast.Ident)
+				b, okB := call.Args[1].(*ast.Ident)
+				if okA && okB {
+					if pr, okP := pairs[a.Name]; okP && pr[1] == b.Name {
+						innerE = pairCall[a.Name]
+					}
+				}
+			}
+			if innerE == nil {
+				bad("addinstruction argument count")
+				continue
+			}
+			inner, ok := innerE.(*ast.CallExpr)
 			if !ok {
 				bad("addinstruction argument is not a call")
 				continue
@@ -313,7 +540,12 @@ func parseWrappers(repo string) (methods, globals []wrapAST, err error) {
 			w.Spread = inner.Ellipsis.IsValid()
 		} else {
 			// ctx.NAME(args)
-			w.Recv, w.Callee = rx.Name, sel.Sel.Name
+			w.Recv, w.Callee = canon(rx.Name, global, "ctx"), sel.Sel.Name
+			for _, p := range w.Params {
+				if p == rx.Name {
+					w.Recv = rx.Name + "?" // a parameter, not the package-level context
+				}
+			}
 			if w.Args, ok = identList(call.Args); !ok {
 				bad("arguments are not identifiers")
 				continue
@@ -351,8 +583,10 @@ func importsOK(repo string) error {
 		return nil
 	}
 	const base = "github.com/mmcloughlin/avo/"
-	if err := check(filepath.Join(repo, "x86", "zctors.go"), map[string]string{"operand": base + "operand", "intrep": base + "ir"}); err != nil {
+	// only the names the recognised shapes mention: `operand.Op` in the signatures, `x86.NAME` in the method bodies
+	// (how the ir package is imported — `intrep`, `ir` — plays no role in the shapes)
+	if err := check(filepath.Join(repo, "x86", "zctors.go"), map[string]string{"operand": base + "operand"}); err != nil {
 		return err
 	}
-	return check(filepath.Join(repo, "build", "zinstructions.go"), map[string]string{"operand": base + "operand", "x86": base + "x86", "ir": base + "ir"})
+	return check(filepath.Join(repo, "build", "zinstructions.go"), map[string]string{"operand": base + "operand", "x86": base + "x86"})
 }
